@@ -75,6 +75,12 @@ Definition query_rules : list rule := [
   mkRule [["vtl error 2-1-19-21"]] KRuntime "2-1-19-21";
   mkRule [["vtl error 2-1-19-1"]] KRuntime "2-1-19-1";
   mkRule [["cannot cast non-daily timeperiod to date"]] KRuntime "2-1-5-1";
+  (* the cast repairs (commits 750a26e, dc2f309, 7d49903, deb711d): rejections raised by vtl_string_to_integer,
+     vtl_string_to_duration and the String -> Date / String -> Time_Period cast templates *)
+  mkRule [["cannot cast string to integer"]] KRuntime "2-1-5-1";
+  mkRule [["cannot cast string to duration"]] KRuntime "2-1-5-1";
+  mkRule [["cannot cast string to date: "]] KRuntime "2-1-19-8";
+  mkRule [["cannot cast string to time_period"]] KRuntime "2-1-5-1";
   mkRule [["cannot cast timeinterval to date"]] KRuntime "2-1-5-1";
   mkRule [["cannot determine period for interval"]] KRuntime "2-1-5-1";
   mkRule [["conversion"]; ["timestamp"; "date"]] KRuntime "2-1-19-8";
@@ -95,8 +101,22 @@ Definition map_query (msg : string) : mres :=
 
 (* REGRESSION WITNESS ONLY — _map_query_error BEFORE the fix (commit f47d60e): no rule for 2-1-19-21, no fallback: the
    original duckdb error was returned and re-raised *)
-Definition query_rules_before_fix : list rule :=
-  filter (fun r => negb (String.eqb (r_code r) "2-1-19-21") && negb (String.eqb (r_code r) "2-1-1-1")) query_rules.
+Definition query_rules_before_fix : list rule := [
+  mkRule [["vtl error 2-1-19-20"]] KRuntime "2-1-19-20";
+  mkRule [["vtl error 2-1-19-19"]] KRuntime "2-1-19-19";
+  mkRule [["vtl error 2-1-19-16"]] KRuntime "2-1-19-16";
+  mkRule [["vtl error 2-1-19-1"]] KRuntime "2-1-19-1";
+  mkRule [["cannot cast non-daily timeperiod to date"]] KRuntime "2-1-5-1";
+  mkRule [["cannot cast timeinterval to date"]] KRuntime "2-1-5-1";
+  mkRule [["cannot determine period for interval"]] KRuntime "2-1-5-1";
+  mkRule [["conversion"]; ["timestamp"; "date"]] KRuntime "2-1-19-8";
+  mkRule [["vtl 2-1-15-6"]] KRuntime "2-1-15-6";
+  mkRule [["vtl 1-1-18-11"]] KSemantic "1-1-18-11";
+  mkRule [["division by zero"; "divide by zero"]] KRuntime "2-1-3-1";
+  mkRule [["vtl error 2-1-3-1"]] KRuntime "2-1-3-1";
+  mkRule [["logarithm of zero"; "logarithm of negative"]] KRuntime "2-1-15-8";
+  mkRule [["cannot take logarithm of a negative number"]] KRuntime "2-1-15-3"
+].
 
 Definition map_query_before_fix (msg : string) : mres :=
   match first_rule (lower msg) query_rules_before_fix with
